@@ -35,8 +35,9 @@
                                         current directory or the relative names that exist in it);
                                         when looking up, the table file exists where it belongs and is not
                                         shadowed by a file of the same relative name *)
-From Eupsv Require Import Base.Base Base.BaseLemmas Model.Paths Model.Records
-  Proofs.RecordsLib Proofs.PathsLib Proofs.Records Proofs.Paths Proofs.Links Proofs.Declare.
+From Eupsv Require Import Base.Base Base.BaseLemmas Model.Paths Model.Records Model.RecordsExt
+  Proofs.RecordsLib Proofs.PathsLib Proofs.Records Proofs.Paths Proofs.Links Proofs.Declare
+  Proofs.RecordsFlavors.
 
 (* ------------------------------------------------------------------ records round-trip *)
 
@@ -596,4 +597,142 @@ Example realpath_of_both_sides_matters :
     = lit "tack/Linux64/prod/1.0/ups/prod.table" /\
   after (length ex_root) (lit "/data/my stack/Linux64/prod/1.0/ups/prod.table")
     = lit "Linux64/prod/1.0/ups/prod.table".
+Proof. repeat split; vm_compute; reflexivity. Qed.
+
+(* ------------------------------------------------------------------ chain records over several flavors *)
+
+(* Vocabulary (Model/RecordsExt.v):
+     cf_set_versions who now v fls c    ChainFile.setVersion(v, fls) for a LIST of flavors: the loop
+     cf_remove_versions fls c           ChainFile.removeVersion(fls)
+     assign_flavors req declared        the list Database.assignTag hands to setVersion: the requested
+                                        flavors (None and the empty list: all declared ones) that are
+                                        declared in the version file, each once
+     requested req declared             (Proofs/RecordsFlavors.v) the list assignTag starts from
+     db_assign_tag                      Database.assignTag on the texts of the version file and of the
+                                        chain file: the new text of the chain file
+     db_find1, db_find_seq              one Database.findProduct on a database of record texts; a
+                                        process asking one query after the other *)
+
+(* ChainFile.setVersion over a list of flavors, whatever the chain record held before (some of the
+   flavors may already carry the tag, for this version or another one): every flavor of the list
+   has the version afterwards, every other flavor what it had. *)
+Theorem set_version_list_sets_every_flavor who now v fls c f :
+  In f fls -> cf_get_version f (cf_set_versions who now v fls c) = Some v.
+Proof. apply cf_set_versions_in. Qed.
+Print Assumptions set_version_list_sets_every_flavor.
+
+Theorem set_version_list_keeps_others who now v fls c f :
+  ~ In f fls -> cf_get_version f (cf_set_versions who now v fls c) = cf_get_version f c.
+Proof. apply cf_set_versions_other. Qed.
+Print Assumptions set_version_list_keeps_others.
+
+(* the same through the file: setVersion over the list, write, read (with or without the names
+   given to the reader) *)
+Theorem set_version_list_reads_back who now v fls c :
+  fls <> [] ->
+  let x := cf_set_versions who now v fls c in
+  wf_cfile x = true ->
+  exists lines c2,
+    cf_lines x = Ok lines /\
+    cf_read (cf_name c) (cf_tag c) lines = Ok c2 /\ cf_read None None lines = Ok c2 /\
+    (forall f, In f fls -> cf_get_version f c2 = Some v) /\
+    (forall f, ~ In f fls -> cf_get_version f c2 = cf_get_version f c).
+Proof. apply cf_set_versions_text. Qed.
+Print Assumptions set_version_list_reads_back.
+
+Theorem remove_version_list who now fls c f :
+  (In f fls -> cf_get_version f (cf_remove_versions fls c) = None) /\
+  (~ In f fls -> cf_get_version f (cf_remove_versions fls c) = cf_get_version f c) /\
+  (* setVersion(version, None) does not return *)
+  (forall v, cf_set_versions_opt who now v None c = Err Crash).
+Proof.
+  split; [apply cf_remove_versions_in|]. split; [apply cf_remove_versions_other|reflexivity].
+Qed.
+Print Assumptions remove_version_list.
+
+(* the flavors Database.assignTag tags: exactly the requested ones that are declared, each once
+   (so a flavor named twice, or one that is not declared, changes nothing for the others) *)
+Theorem assign_tag_flavors req declared :
+  (forall f, In f (assign_flavors req declared) <-> In f (requested req declared) /\ In f declared) /\
+  NoDup (assign_flavors req declared) /\
+  requested None declared = declared /\ requested (Some []) declared = declared /\
+  (forall f r, requested (Some (f :: r)) declared = f :: r).
+Proof.
+  split; [intro f; apply assign_flavors_spec|]. split; [apply assign_flavors_nodup|]. repeat split.
+Qed.
+Print Assumptions assign_tag_flavors.
+
+(* Database.assignTag(tag, name, v, req) then reading the chain file: every requested flavor that
+   is declared for the version reads back v, every other flavor what the chain file said before
+   (c: the chain record as read before the call; empty when there was no chain file). *)
+Theorem assign_tag_reads_back who now name tag v req vls r cls c :
+  vf_read None None vls = Ok r ->
+  let declared := akeys (vf_info r) in
+  (cls = None /\ c = {| cf_name := Some name; cf_tag := Some tag; cf_info := [] |}) \/
+  (exists ls, cls = Some ls /\ cf_read (Some name) (Some tag) ls = Ok c) ->
+  assign_flavors req declared <> [] ->
+  wf_cfile (cf_set_versions who now v (assign_flavors req declared) c) = true ->
+  exists lines c2,
+    db_assign_tag who now name tag v req (Some vls) cls = Ok lines /\
+    cf_read None None lines = Ok c2 /\
+    (forall f, In f (requested req declared) -> In f declared -> cf_get_version f c2 = Some v) /\
+    (forall f, ~ (In f (requested req declared) /\ In f declared) ->
+               cf_get_version f c2 = cf_get_version f c).
+Proof. apply db_assign_tag_text. Qed.
+Print Assumptions assign_tag_reads_back.
+
+(* ------------------------------------------------------------------ several look-ups in one process *)
+
+(* What a look-up answers does not depend on which look-ups went before it: in two processes that
+   ask their queries in any two orders (repetitions allowed), the same query gets the same answer,
+   which is the answer it gets when asked alone. *)
+Theorem lookups_do_not_interfere ex root d qs qs' k k' q :
+  nth_error qs k = Some q -> nth_error qs' k' = Some q ->
+  nth_error (db_find_seq ex root d qs) k = Some (db_find1 ex root d q) /\
+  nth_error (db_find_seq ex root d qs') k' = Some (db_find1 ex root d q) /\
+  db_find_seq ex root d [q] = [db_find1 ex root d q].
+Proof.
+  intros H H'. rewrite !db_find_seq_nth, H, H'. repeat split.
+Qed.
+Print Assumptions lookups_do_not_interfere.
+
+(* one record, three flavors whose blocks have the same text and use the FLAVOR macro (directory
+   below the stack, table file held in the database): each flavor resolves with its own name, in
+   either order of asking, at the place where the stack is and at the place it is moved to *)
+Definition ex_macro_block : list str :=
+  [ lit "   QUALIFIERS = "; lit "   PROD_DIR = $FLAVOR/bar/2.0";
+    lit "   UPS_DIR = $UPS_DB/$FLAVOR/bar/2.0/ups"; lit "   TABLE_FILE = bar.table" ].
+Definition ex_macro_text : list str :=
+  [ lit "FILE = version"; lit "PRODUCT = bar"; lit "VERSION = 2.0" ]
+  ++ [lit "Group:"; lit "   FLAVOR = Linux"] ++ ex_macro_block
+  ++ [lit "Group:"; lit "   FLAVOR = Linux64"] ++ ex_macro_block
+  ++ [lit "Group:"; lit "   FLAVOR = Darwin"] ++ ex_macro_block ++ [lit "End:"].
+
+Example flavor_macro_resolved_per_flavor :
+  let d := [(lit "bar", lit "2.0", ex_macro_text)] in
+  let q f := (lit "bar", lit "2.0", f) in
+  let dirs root qs := map (fun a => match a with
+                                    | Ok (Some p) => (p_dir p, p_table p)
+                                    | _ => (None, None)
+                                    end) (db_find_seq (fun _ => false) root d qs) in
+  dirs (lit "/s") [q (lit "Linux"); q (lit "Linux64"); q (lit "Linux")]
+  = [ (Some (lit "/s/Linux/bar/2.0"), Some (lit "/s/ups_db/Linux/bar/2.0/ups/bar.table"));
+      (Some (lit "/s/Linux64/bar/2.0"), Some (lit "/s/ups_db/Linux64/bar/2.0/ups/bar.table"));
+      (Some (lit "/s/Linux/bar/2.0"), Some (lit "/s/ups_db/Linux/bar/2.0/ups/bar.table")) ] /\
+  dirs (lit "/moved to") [q (lit "Darwin"); q (lit "Linux")]
+  = [ (Some (lit "/moved to/Darwin/bar/2.0"), Some (lit "/moved to/ups_db/Darwin/bar/2.0/ups/bar.table"));
+      (Some (lit "/moved to/Linux/bar/2.0"), Some (lit "/moved to/ups_db/Linux/bar/2.0/ups/bar.table")) ].
+Proof. split; vm_compute; reflexivity. Qed.
+
+(* a chain record in which one flavor already carries the tag for the version: setVersion over
+   the list of all three still sets the two others *)
+Example set_version_list_computed :
+  let c := cf_set_version (lit "alice") (lit "t0") (lit "1.0") (lit "Linux")
+             {| cf_name := Some (lit "foo"); cf_tag := Some (lit "stable"); cf_info := [] |} in
+  let x := cf_set_versions (lit "bob") (lit "t1") (lit "1.0") [lit "Linux"; lit "Linux64"; lit "Darwin"] c in
+  wf_cfile x = true /\
+  map (fun f => cf_get_version f x) [lit "Linux"; lit "Linux64"; lit "Darwin"; lit "generic"]
+  = [Some (lit "1.0"); Some (lit "1.0"); Some (lit "1.0"); None] /\
+  assign_flavors (Some [lit "Darwin"; lit "Linux"; lit "sparc"; lit "Darwin"]) [lit "Linux"; lit "Linux64"; lit "Darwin"]
+  = [lit "Linux"; lit "Darwin"].
 Proof. repeat split; vm_compute; reflexivity. Qed.
